@@ -24,6 +24,11 @@ class _:
     methods = {"__call__": dict(ret="Deferred?", reentrant=True, trace="Invoked")}
 
 
+DFIELDS = ["_shutdown_d", "_commit_looper_d", "_commit_req", "_start_d", "_request_d", "_msg_block_d", "_processor_d"]
+DISTINCT = " and ".join("(self.%s is None or self.%s is None or self.%s != self.%s)" % (a, b, a, b)
+                        for i, a in enumerate(DFIELDS) for b in DFIELDS[i + 1:])
+
+
 @klass("afkak.consumer.Consumer")
 class _:
     props = ["C02", "C03", "C13", "C14"]
@@ -59,6 +64,10 @@ class _:
         "retry-live": "self._start_d is None or self._stopping or self._retry_call is None or active(self._retry_call)",
         "commit-call-live": "self._start_d is None or self._stopping or self._commit_call is None or active(self._commit_call)",
         "stopping-implies-started": "not self._stopping or self._start_d is not None",
+        # Deferreds of different roles are different objects (each is created fresh for its role)
+        "deferred-roles-apart": DISTINCT,
+        # C03: at most one commit in flight: an outstanding request always has someone waiting for it
+        "commit-has-waiter": "self._commit_req is None or len(self._commit_ds) > 0",
         "timers-apart": "self._retry_call is None or self._commit_call is None or self._retry_call != self._commit_call",
         "idle-when-stopped": "self._start_d is not None or self._request_d is None",
         "roles-apart": "(self._msg_block_d is None or ((self._start_d is None or self._start_d != self._msg_block_d) and "
@@ -242,3 +251,80 @@ method("start", "(%s, start_offset: int) -> Ref_Deferred" % SELF, props=["C13"],
        raises={"RestartError[C13]": "iff:self._start_d is not None"},
        checkpoints={"call:_do_fetch#1": {"fresh-run[C13]": "self._start_d is not None and not called(self._start_d) "
                                                            "and self._fetch_offset == start_offset"}})
+
+
+# ---- C13: graceful shutdown ---------------------------------------------------------------------------------
+# promise ranks of Deferreds seen by shutdown():  0 nothing, 1 "a commit request completed", 2 "everything processed is
+# committed (or there is no group)".  commit() called while shutting down (no processing any more) promises 2; the Deferred
+# carried by OperationInProgress belongs to an OLDER request: only 1.
+method("commit", "(%s) -> Ref_Deferred" % SELF, props=["C03", "C13"], modifies=["Consumer.*", "Deferred.*", "DelayedCall.*", "LoopingCall.*"],
+       assumed_ensures={"promise[C13]": "implies(old(self._shuttingdown), promise(result) == 2)"},
+       raises={"OperationInProgress": "False"},
+       checkpoints={"call:_send_commit_request#1": {
+           # C03: a new request is issued only when none is outstanding and something new was processed
+           "nothing-in-flight[C03]": "self._commit_req is None and old(len(self._commit_ds)) == 0",
+           "something-to-commit[C03]": "self._last_processed_offset is not None and self._last_processed_offset != self._last_committed_offset",
+           "group-configured[C03]": "self.consumer_group"}},
+       ensures={"no-group-fails[C03]": "implies(not self.consumer_group, called(result) and failed(result) and n_calls('_send_commit_request') == 0)",
+                "up-to-date-succeeds-at-once[C03]": "implies(self.consumer_group and (old(self._last_processed_offset) is None or "
+                    "old(self._last_processed_offset) == old(self._last_committed_offset)), called(result) and not failed(result) "
+                    "and n_calls('_send_commit_request') == 0)",
+                "busy-reports-in-progress[C03]": "implies(self.consumer_group and old(self._last_processed_offset) is not None and "
+                    "old(self._last_processed_offset) != old(self._last_committed_offset) and old(len(self._commit_ds)) > 0, "
+                    "called(result) and failed(result) and n_calls('_send_commit_request') == 0)"})
+
+SH_ENV = {"self": "Ref_Consumer", "_handle_shutdown_commit_success": "closure", "_handle_shutdown_commit_failure": "closure",
+          "_commit_and_stop": "closure"}
+
+
+def shclosure(name, sig, **kw):
+    d = dict(sig=sig, props=["C13"], entry_point=True, closure_env=dict(SH_ENV))
+    d['closure_env'].pop(name, None)
+    d.update(kw)
+    contract(C + "shutdown.<%s>" % name)(type('_', (), d))
+
+
+shclosure("_handle_shutdown_commit_success", "(result: Any) -> None", expects=2, private_locals=["d"],
+          requires=["self._shutdown_d is not None", "not called(self._shutdown_d)", "self._start_d is not None", "not self._stopping"],
+          notes="runs when 'everything processed is committed': stops and reports success")
+
+shclosure("_commit_and_stop", "(result: Any) -> Any", expects=0, external_effect=True,
+          requires=["self._shutdown_d is not None", "not called(self._shutdown_d)", "self._start_d is not None", "not self._stopping",
+                    "self._shuttingdown"],
+          checkpoints={"call:_handle_shutdown_commit_success#1": {"only-without-group[C13]": "not self.consumer_group"}})
+
+shclosure("_handle_shutdown_commit_failure", "(failure: Ref_Failure) -> None", expects=0, private_locals=["d"],
+          requires=["self._shutdown_d is not None", "not called(self._shutdown_d)", "self._start_d is not None", "not self._stopping",
+                    "implies(exc_is(failure, 'OperationInProgress'), promise(failure.value.deferred) == 1)"])
+
+method("shutdown", "(%s) -> Ref_Deferred" % SELF, props=["C13"],
+       requires=["not self._stopping"],
+       ensures={"refused-when-not-running-or-twice[C13]": "implies(old(self._start_d) is None or old(self._shutdown_d) is not None, "
+                                                          "called(result) and failed(result))"},
+       checkpoints={"call:addCallback#1": {
+           # C13: graceful shutdown waits for the processing in progress: the continuation is attached to the processor's Deferred
+           "waits-for-processor[C13]": "self._shuttingdown and self._shutdown_d is not None and not called(self._shutdown_d)"}})
+
+
+method("_handle_commit_error", "(%s, failure: Ref_Failure, commit_offset: int, retry_delay: float, attempt: int) -> Any" % SELF,
+       props=["C03", "C14"],
+       requires=["retry_delay > 0", "attempt >= 1"],
+       checkpoints={
+           "call:callLater#1": {
+               "retry-only-below-limit[C03,C14]": "self.request_retry_max_attempts == 0 or attempt < self.request_retry_max_attempts",
+               "retriable-kafka-error-only[C03]": "exc_is(failure, 'KafkaError') and not exc_is(failure, 'IllegalGeneration') and "
+                                                  "not exc_is(failure, 'InvalidGroupId') and not exc_is(failure, 'UnknownMemberId')",
+               "committed-offset-untouched[C03]": "self._last_committed_offset == old(self._last_committed_offset)"},
+           "call:_deliver_commit_result#1": {"committed-offset-untouched[C03]": "self._last_committed_offset == old(self._last_committed_offset)"},
+           "call:_deliver_commit_result#2": {"committed-offset-untouched[C03]": "self._last_committed_offset == old(self._last_committed_offset)"},
+           "call:_deliver_commit_result#3": {"committed-offset-untouched[C03]": "self._last_committed_offset == old(self._last_committed_offset)"},
+           "call:_deliver_commit_result#4": {"committed-offset-untouched[C03]": "self._last_committed_offset == old(self._last_committed_offset)"}},
+       ensures={"backoff[C14]": "implies(n_events('Timer') == 1, event_arg('Timer', 0, 0) == min(retry_delay * 1.20205, self.retry_max_delay))"})
+
+method("_auto_commit", "(%s, by_count: bool = False) -> None" % SELF, props=["C03"],
+       checkpoints={"call:commit#1": {
+           # C03: automatic commits happen only while running, with a group, after something was processed
+           "only-while-running[C03,C13]": "not self._stopping and not self._shuttingdown and self._start_d is not None "
+                                          "and self._last_processed_offset is not None and self.consumer_group",
+           "count-threshold[C03]": "implies(by_count, self.auto_commit_every_n and (self._last_committed_offset is None or "
+                                   "self._last_processed_offset - self._last_committed_offset >= self.auto_commit_every_n))"}})
